@@ -469,6 +469,8 @@ def followup(w):
             obs.append(("ok", plain(r)))
         except Exception as e:
             obs.append((type(e).__name__,))
+    rec(lambda: o.pd)       # (reads first: a cache refilled right after the
+    rec(lambda: o.pc)       #  fault must still be invalidated by the next change)
     rec(lambda: o.x)
     rec(lambda: setattr(o, "x", 11))
     rec(lambda: o.x)
